@@ -148,6 +148,9 @@ def main():
     i.add_argument("worktree")
     i.add_argument("prop")
     i.add_argument("--needs", default="")
+    b = sub.add_parser("ingest-batch", help="ingest every <prefix>Cxx worktree that has SEED/patch.diff and SEED/demo.py")
+    b.add_argument("prefix")
+    b.add_argument("suffix")
     r = sub.add_parser("run")
     r.add_argument("names", nargs="*")
     r.add_argument("--props", default="")
@@ -157,6 +160,23 @@ def main():
     a = ap.parse_args()
     if a.cmd == "ingest":
         sys.exit(0 if ingest(a.name, a.worktree, a.prop, a.needs) else 1)
+    if a.cmd == "ingest-batch":
+        import re
+
+        for i in range(1, 20):
+            prop = f"C{i:02d}"
+            wt = f"{a.prefix}{prop}"
+            if not (os.path.exists(os.path.join(wt, "SEED", "patch.diff")) and os.path.exists(os.path.join(wt, "SEED", "demo.py"))):
+                continue
+            if any(n.startswith(prop + a.suffix + "_") for n in os.listdir(SEEDED)):
+                continue
+            files = re.findall(r"^\+\+\+ b/src/sym_metanet/(\S+)", open(os.path.join(wt, "SEED", "patch.diff")).read(), re.M)
+            slug = "_".join(sorted({os.path.splitext(os.path.basename(f))[0] for f in files})) or "change"
+            name = f"{prop}{a.suffix}_{slug}"
+            print("==", name)
+            ok = ingest(name, wt, prop, "see notes.md")
+            print("   ->", "stored" if ok else "NOT confirmed")
+        return
     names = a.names or sorted(os.listdir(SEEDED))
     ALL = [f"C{i:02d}" for i in range(1, 20)]
 
